@@ -5,6 +5,7 @@ import (
 	"sync"
 	"sync/atomic"
 	"testing"
+	"time"
 
 	"github.com/rigochain/rigo-go/node"
 
@@ -58,7 +59,8 @@ func TestRacePass(t *testing.T) {
 		}()
 		res := &sim.RunResult{Chain: c, Dirs: []string{dir}}
 		for round := 0; round < 1; round++ {
-			sim.RunBlocks(tmpRoot(), res, h.Blocks, &sim.Hooks{NoStates: true})
+			// give the free-running goroutines room between consensus calls
+			sim.RunBlocks(tmpRoot(), res, h.Blocks, &sim.Hooks{NoStates: true, Gap: func(*sim.Chain, int64, string, int) { time.Sleep(4 * time.Millisecond) }})
 		}
 		atomic.StoreInt32(&stop, 1)
 		wg.Wait()
